@@ -13,6 +13,7 @@ import (
 	"fmt"
 	"net/netip"
 	"sort"
+	"strings"
 	"testing"
 	"testing/synctest"
 	"time"
@@ -318,6 +319,11 @@ func (w *world) alter(pk *packet, k string, csid uint64) ([]byte, error) {
 // serverReceive does what service/udp_session.go does with a datagram: SessionInfo, table lookup or NewUnpacker,
 // UnpackInPlace, and the table insert only after a successful unpack.
 func (w *world) serverReceive(b []byte) (out string, csid uint64, payload []byte) {
+	defer func() {
+		if r := recover(); r != nil {
+			out, payload = fmt.Sprintf("panic: %v", r), nil
+		}
+	}()
 	csid, err := w.server.SessionInfo(b)
 	if err != nil {
 		return classify(err), 0, nil
@@ -341,7 +347,12 @@ func (w *world) serverReceive(b []byte) (out string, csid uint64, payload []byte
 	return "ok", csid, b[ps : ps+pl]
 }
 
-func (w *world) clientReceive(b []byte) (string, []byte) {
+func (w *world) clientReceive(b []byte) (out string, payload []byte) {
+	defer func() {
+		if r := recover(); r != nil {
+			out, payload = fmt.Sprintf("panic: %v", r), nil
+		}
+	}()
 	_, ps, pl, err := w.me.sess.Unpacker.UnpackInPlace(b, serverAddrPort, 0, len(b))
 	if err != nil {
 		return classify(err), nil
@@ -435,6 +446,9 @@ func run(t *testing.T, res *vio.Result, in *vio.Input, prm sessParams, bi int, b
 		hist := func(n int) any {
 			return map[string]any{"test": "TestSession", "session": prm, "steps": b.Steps[:n+1], "seed": in.Seed, "behaviour": bi}
 		}
+		// after the first difference from the model the rest is no longer a model behaviour: it is still executed and
+		// the property is still evaluated on it (the oracles need no model), but nothing is compared with the model any more
+		drifted := false
 		for si, a := range acts {
 			if o.skipBad && o.bad[si] {
 				continue
@@ -447,7 +461,9 @@ func run(t *testing.T, res *vio.Result, in *vio.Input, prm sessParams, bi int, b
 					return
 				}
 				time.Sleep(d)
-				completed = si + 1
+				if !drifted {
+					completed = si + 1
+				}
 				continue
 			case "Pack":
 				var pk *packet
@@ -504,7 +520,9 @@ func run(t *testing.T, res *vio.Result, in *vio.Input, prm sessParams, bi int, b
 					return
 				}
 				w.pk[a.S] = append(w.pk[a.S], pk)
-				completed = si + 1
+				if !drifted {
+					completed = si + 1
+				}
 				continue
 			case "Evict":
 				cs := w.cs[a.S]
@@ -513,12 +531,17 @@ func run(t *testing.T, res *vio.Result, in *vio.Input, prm sessParams, bi int, b
 					return
 				}
 				if idle := time.Since(w.lastAct[cs.csid]); idle < w.server.Info().MinNATTimeout {
+					if drifted || o.skipBad {
+						continue // the real history is not the model's any more: the relay would not drop the session yet
+					}
 					res.Break("behaviour %d step %d: model evicts after %s, below the server's MinNATTimeout", bi, si, idle)
 					return
 				}
 				delete(w.table, cs.csid)
 				evicted[a.S] = true
-				completed = si + 1
+				if !drifted {
+					completed = si + 1
+				}
 				continue
 			case "SrvRecv", "CliRecv":
 			default:
@@ -563,6 +586,9 @@ func run(t *testing.T, res *vio.Result, in *vio.Input, prm sessParams, bi int, b
 				flagged = true
 				res.Violation(vio.Finding{Key: key, Behaviour: bi, Step: si, Expected: a.Out, Observed: got, Text: text, Replay: hist(si)})
 			}
+			if strings.HasPrefix(got, "panic") {
+				viol("udp."+side+"/panic", fmt.Sprintf("UnpackInPlace panicked on a %s delivery of %s/%d: %s", a.K, a.S, a.P, got))
+			}
 			if got == "ok" {
 				was := led.delivered[a.S][a.P]
 				switch {
@@ -598,25 +624,25 @@ func run(t *testing.T, res *vio.Result, in *vio.Input, prm sessParams, bi int, b
 					a.S, a.P, diff, led.max[a.S], prm.W, got))
 			}
 			res.Seen(fmt.Sprintf("%s/%s/%s", a.N, a.K, got))
-			if got != a.Out && !o.skipBad {
+			if got != a.Out && !o.skipBad && !drifted {
 				if !flagged {
 					res.DriftNote(vio.Finding{Key: "udp.session/model-drift", Behaviour: bi, Step: si, Expected: a.Out, Observed: got,
 						Text: fmt.Sprintf("%s(%s,%d,%s): model expects %q, the unpacker did %q", a.N, a.S, a.P, a.K, a.Out, got), Replay: hist(si)})
 				}
-				if !b.Cex {
-					return
-				}
+				drifted = !b.Cex
 			}
-			completed = si + 1
+			if !drifted {
+				completed = si + 1
+			}
 			// ---- state projection: a copy with a flipped body bit of every packet packed so far
-			if o.probes && !o.skipBad && si < len(obs) && obs[si].valid {
-				if !w.probe(obs[si], bi, si, hist) && !b.Cex {
-					return
+			if o.probes && !o.skipBad && !drifted && si < len(obs) && obs[si].valid {
+				if !w.probe(obs[si], bi, si, hist) {
+					drifted = !b.Cex
 				}
 			}
 		}
 		ok = true
-		if !o.skipBad {
+		if !o.skipBad && !drifted {
 			w.extras(bi, hist(len(acts)-1))
 		}
 	})
@@ -667,6 +693,11 @@ func (w *world) probe(o sessObs, bi, si int, hist func(int) any) bool {
 					got, _ = w.clientReceive(wire)
 				}
 				w.res.Count("probes", 1)
+				if strings.HasPrefix(got, "panic") {
+					w.res.Violation(vio.Finding{Key: "udp.session/panic", Behaviour: bi, Step: si, Expected: want, Observed: got,
+						Text: fmt.Sprintf("UnpackInPlace panicked on a copy of packet %s/%d with a flipped bit: %s", s, p, got), Replay: hist(si)})
+					return false
+				}
 				if got == "ok" {
 					w.res.Violation(vio.Finding{Key: "udp.session/bad-packet-delivered", Behaviour: bi, Step: si, Expected: want, Observed: got,
 						Text: fmt.Sprintf("a copy of packet %s/%d with a flipped bit was delivered", s, p), Replay: hist(si)})
